@@ -16,7 +16,8 @@ Record dcfg := mk_dcfg {
   c_lidar_clock : bool;
   c_ts_first : bool;
   c_pkt_cb : bool;             (* a packet callback is registered (=> header time is rewritten) *)
-  c_tz : Z                     (* seconds east of UTC of the process time zone (fixed offset) *)
+  c_tz : Z;                    (* seconds east of UTC of the process time zone (fixed offset) *)
+  c_user : Z; c_tail : Z       (* input_param.user_layer_bytes / tail_layer_bytes *)
 }.
 
 (* ---------------------------------------------------------------- points *)
@@ -170,7 +171,9 @@ Definition cur_tab (d : desc) (s : dstate) : tab :=
   | VarNone => d_tab_base d
   | VarEcho16 => if s_echo_dual s then d_tab_alt1 d else d_tab_base d
   | VarBpv4 => if s_variant s =? 1 then d_tab_alt1 d else d_tab_base d
-  | VarRsp80 => if s_variant s =? 0 then d_tab_base d else if s_variant s =? 3 then d_tab_alt2 d else d_tab_alt1 d
+  | VarRsp80 => (* calcParam() runs whenever the header's model byte differs from the remembered one (initially 0);
+                   until then the tables are the zero-initialised static ones *)
+                if s_first_pkt s then d_tab_base d else if s_variant s =? 3 then d_tab_alt2 d else d_tab_alt1 d
   end.
 
 (* ---------------------------------------------------------------- DIFOP *)
@@ -336,7 +339,8 @@ Fixpoint mech_blocks (d : desc) (c : dcfg) (t : tab) (w : dy * dy) (sect : az_se
         let block_az := be16 b (blk_off + d_off_blk_az d) in
         let '(sp, ss) := split_step c s block_az in
         let cloud_ts := if c_ts_first c then s_first_point_ts s else s_prev_point_ts s in
-        let pts_all := map (mech_channel d c s t w sect b blk_off block_az az_diff block_ts)
+        let bb := skipn (Z.to_nat blk_off) b in   (* reads below are relative to the block *)
+        let pts_all := map (mech_channel d c s t w sect bb 0 block_az az_diff block_ts)
                            (map Z.of_nat (seq 0 (Z.to_nat (d_chans_per_blk d)))) in
         let last_ts := block_ts + nthZ (t_chan_ns t) (d_chans_per_blk d - 1) in
         let s' := upd_mech_blk s ss (if 0 <? d_chans_per_blk d then last_ts else s_prev_point_ts s)
@@ -390,7 +394,7 @@ Definition decode_msop_mech (d : desc) (c : dcfg) (s : dstate) (b : bytes) (host
         if s_first_pkt s then
           ((if (u8 b (d_off_hdr_lidar_type d) =? 3) && (u8 b (d_off_hdr_lidar_model d) =? 4) then 1 else s_variant s), false)
         else (s_variant s, false)
-    | VarRsp80 => (u8 b (d_off_hdr_lidar_model d), s_first_pkt s)
+    | VarRsp80 => let m := u8 b (d_off_hdr_lidar_model d) in (m, s_first_pkt s && (m =? s_variant s))
     | _ => (s_variant s, s_first_pkt s)
     end in
   let s1 := set_pkt_common s (Some (temp_raw d b 0)) true variant first_pkt in
@@ -429,9 +433,10 @@ Definition mems_channel_points (d : desc) (c : dcfg) (w : dy * dy) (b : bytes) (
 
 Definition mems_block_points (d : desc) (c : dcfg) (w : dy * dy) (b : bytes) (base pkt_ts : Z) (dual_hdr : bool) (blk : Z) : list point * Z :=
   let boff := base + d_off_blocks d + blk * d_sizeof_block d in
-  let toff := if d_sizeof_toff d =? 2 then be16 b (boff + d_off_blk_toff d) else u8 b (boff + d_off_blk_toff d) in
+  let bb := skipn (Z.to_nat boff) b in    (* reads below are relative to the block *)
+  let toff := if d_sizeof_toff d =? 2 then be16 bb (d_off_blk_toff d) else u8 bb (d_off_blk_toff d) in
   let ts := pkt_ts + toff * 1000 in
-  (flat_map (fun chan => mems_channel_points d c w b base (boff + d_off_blk_chan d + chan * d_sizeof_chan d) ts chan dual_hdr)
+  (flat_map (fun chan => mems_channel_points d c w bb 0 (d_off_blk_chan d + chan * d_sizeof_chan d) ts chan dual_hdr)
             (map Z.of_nat (seq 0 (Z.to_nat (d_chans_per_blk d)))), ts).
 
 Definition upd_mems (s : dstate) (sq : seq_state) (temp : option Z) (flag : bool) (prev_pkt prev_point first_point : Z) : dstate :=
@@ -444,16 +449,17 @@ Definition upd_mems (s : dstate) (sq : seq_state) (temp : option Z) (flag : bool
 Definition decode_msop_mems_sub (d : desc) (c : dcfg) (s : dstate) (b : bytes) (base : Z) (host1 host2 : Z)
   : dstate * blk_out * bytes * option Z :=
   let '(pkt_ts, b') := pkt_time d c 0 b base host1 host2 in
-  let seqn := be16 b (base + d_off_seq d) in
+  let sb := skipn (Z.to_nat base) b in    (* the sub packet; reads below are relative to it *)
+  let seqn := be16 sb (d_off_seq d) in
   let '(sp, sq) := seq_step (s_seq s) seqn in
   let cloud_ts := if c_ts_first c then s_first_point_ts s else s_prev_point_ts s in
   let first_point := if sp then pkt_ts else s_first_point_ts s in
   let w := dist_window d c in
-  let dual_hdr := u8 b (base + d_off_hdr_return_mode d) =? 0 in
-  let per_blk := map (mems_block_points d c w b base pkt_ts dual_hdr) (map Z.of_nat (seq 0 (Z.to_nat (d_blocks_per_pkt d)))) in
+  let dual_hdr := u8 sb (d_off_hdr_return_mode d) =? 0 in
+  let per_blk := map (mems_block_points d c w sb 0 pkt_ts dual_hdr) (map Z.of_nat (seq 0 (Z.to_nat (d_blocks_per_pkt d)))) in
   let pts := filter (keep c) (flat_map fst per_blk) in
   let last_ts := last (map snd per_blk) (s_prev_point_ts s) in
-  let s' := upd_mems s sq (Some (temp_raw d b base)) (s_temp_flag s || d_sets_temp_flag d) pkt_ts last_ts first_point in
+  let s' := upd_mems s sq (Some (temp_raw d sb 0)) (s_temp_flag s || d_sets_temp_flag d) pkt_ts last_ts first_point in
   let end_split := if d_m1_end_split d && (seq_max_seq sq =? seqn)
                    then Some (if c_ts_first c then first_point else last_ts) else None in
   (s', mk_blk_out sp cloud_ts pts, b', end_split).
